@@ -171,6 +171,16 @@ func Run(dir string, q Query, solvers []Solver, timeoutS int, all bool) Result {
 		best = *sat
 	default:
 		best = Result{Status: "unknown"}
+		allErr := len(got) > 0
+		for _, r := range got {
+			if r.Status != "error" {
+				allErr = false
+			}
+		}
+		if allErr {
+			// every solver rejected the query (malformed script): an engine fault, not a verdict
+			best.Status = "error"
+		}
 		for _, r := range got {
 			if r.Status == "timeout" {
 				best.Status = "timeout"
